@@ -330,3 +330,120 @@ Lemma created_once_spec c x o :
 Proof.
   intros Ho Hg H. unfold created_once in H. rewrite Ho, Hg in H. apply Nat.leb_le. exact H.
 Qed.
+
+(* ------------------------------------------------------------------ *)
+(* Round 4: the remaining conjuncts read declaratively, and all of [prop_ok_conc] in one statement. *)
+
+(* GetResource: a successful result is the instance a successful create for this key produced before the
+   return; a failed one is the error of an overlapping (or the caller's own) creation *)
+Lemma ret_ok_resource_spec c e o :
+  (ev3 e =? -2)%Z = false ->
+  op_at c (ea e) (eop e) = Some o -> ogrp o = GRM -> ret_ok c e = true ->
+  (ev2 e = 0%Z ->
+   exists x o' fe, In x (clog c) /\ ek x = 1%Z /\ op_at c (ea x) (eop x) = Some o' /\ same_key o o' = true /\
+                   oval o' = ev1 e /\ oerr o' = 0%Z /\
+                   find_ev (clog c) 2%Z (ea x) (eop x) = Some fe /\ (et fe < et e)%Z) /\
+  (ev2 e <> 0%Z ->
+   exists x o', In x (clog c) /\ ek x = 1%Z /\ op_at c (ea x) (eop x) = Some o' /\ same_key o o' = true /\
+                oerr o' = ev2 e /\ may_share c e x = true).
+Proof.
+  intros H3 Ho Hg H. unfold ret_ok in H. rewrite H3, Ho, Hg in H.
+  split; intros He.
+  - rewrite He in H. cbn in H. apply existsb_exists in H. destruct H as (x & Hin & Hx).
+    unfold execs in Hin. apply filter_In in Hin. destruct Hin as [Hin Hk]. apply Z.eqb_eq in Hk.
+    destruct (op_at c (ea x) (eop x)) as [o'|] eqn:Eo'; [|discriminate].
+    destruct (same_key o o' && (oval o' =? ev1 e)%Z && (oerr o' =? 0)%Z) eqn:Ec; [|discriminate].
+    destruct (find_ev (clog c) 2 (ea x) (eop x)) as [fe|] eqn:Ef; [|discriminate].
+    apply andb_prop in Ec. destruct Ec as [Ec E3]. apply andb_prop in Ec. destruct Ec as [E1 E2].
+    apply Z.eqb_eq in E2. apply Z.eqb_eq in E3. apply Z.ltb_lt in Hx.
+    exists x, o', fe. repeat split; auto.
+  - destruct (ev2 e =? 0)%Z eqn:E0; [apply Z.eqb_eq in E0; contradiction|].
+    apply existsb_exists in H. destruct H as (x & Hin & Hx).
+    unfold execs in Hin. apply filter_In in Hin. destruct Hin as [Hin Hk]. apply Z.eqb_eq in Hk.
+    destruct (op_at c (ea x) (eop x)) as [o'|] eqn:Eo'; [|discriminate].
+    destruct (same_key o o' && (oerr o' =? ev2 e)%Z) eqn:Ec; [|discriminate].
+    apply andb_prop in Ec. destruct Ec as [E1 E2]. apply Z.eqb_eq in E2.
+    exists x, o'. repeat split; auto.
+Qed.
+
+(* a filter that keeps at most one element keeps no two *)
+Lemma filter_le1_no_two {A} (p : A -> bool) l :
+  (length (filter p l) <= 1)%nat ->
+  forall l1 e1 l2 e2 l3, l = l1 ++ e1 :: l2 ++ e2 :: l3 -> p e1 = true -> p e2 = true -> False.
+Proof.
+  intros H l1 e1 l2 e2 l3 -> P1 P2.
+  rewrite filter_app in H. cbn [filter] in H. rewrite P1 in H. cbn [length app] in H.
+  rewrite app_length in H. cbn [length] in H. rewrite filter_app in H. cbn [filter] in H. rewrite P2 in H.
+  rewrite app_length in H. cbn [length] in H. lia.
+Qed.
+
+(* the returns that are reported fresh for the execution with op [o] (identified by its value) *)
+Definition fresh_ret_of (c : ccase) (o : op) (e : ev) : bool :=
+  if (ek e =? 3)%Z && (ev3 e =? 1)%Z && (ev1 e =? oval o)%Z then
+    match op_at c (ea e) (eop e) with Some o' => same_key o o' | None => false end
+  else false.
+
+(* exactly-one-fresh, upper half: no two returns of the log are reported fresh for one execution *)
+Lemma fresh_once_spec c x o :
+  op_at c (ea x) (eop x) = Some o -> ogrp o = GSF -> fresh_once c x = true ->
+  forall l1 e1 l2 e2 l3, clog c = l1 ++ e1 :: l2 ++ e2 :: l3 ->
+    fresh_ret_of c o e1 = true -> fresh_ret_of c o e2 = true -> False.
+Proof.
+  intros Ho Hg H. unfold fresh_once in H. rewrite Ho, Hg in H. apply Nat.leb_le in H.
+  exact (filter_le1_no_two (fresh_ret_of c o) (clog c) H).
+Qed.
+
+Lemma own_once_spec c x : own_once c x = true -> (count_ev (clog c) 1%Z (ea x) (eop x) <= 1)%nat.
+Proof. unfold own_once. apply Nat.leb_le. Qed.
+
+(* [prop_ok_conc] (no cache in front) in one declarative statement about the log *)
+Definition log_ok (c : ccase) : Prop :=
+  scan c (clog c) [] = true /\
+  (forall e o, In e (clog c) -> ek e = 3%Z -> (ev3 e =? -2)%Z = false -> op_at c (ea e) (eop e) = Some o ->
+     (ogrp o = GSF ->
+        exists x o', In x (clog c) /\ ek x = 1%Z /\ op_at c (ea x) (eop x) = Some o' /\ same_key o o' = true /\
+          may_share c e x = true /\
+          ((ev1 e, ev2 e) = fn_ret o' \/ (panics o' = true /\ (ev1 e, ev2 e) = (vnil, 0%Z) /\ eid x <> eid e))) /\
+     (ogrp o = GLC ->
+        count_ev (clog c) 1%Z (ea e) (eop e) = 1%nat /\ count_ev (clog c) 2%Z (ea e) (eop e) = 1%nat /\
+        (ev1 e, ev2 e) = fn_ret o /\
+        exists fe, find_ev (clog c) 2%Z (ea e) (eop e) = Some fe /\ (et fe < et e)%Z) /\
+     (ogrp o = GRM ->
+        (ev2 e = 0%Z ->
+         exists x o' fe, In x (clog c) /\ ek x = 1%Z /\ op_at c (ea x) (eop x) = Some o' /\ same_key o o' = true /\
+                         oval o' = ev1 e /\ oerr o' = 0%Z /\
+                         find_ev (clog c) 2%Z (ea x) (eop x) = Some fe /\ (et fe < et e)%Z) /\
+        (ev2 e <> 0%Z ->
+         exists x o', In x (clog c) /\ ek x = 1%Z /\ op_at c (ea x) (eop x) = Some o' /\ same_key o o' = true /\
+                      oerr o' = ev2 e /\ may_share c e x = true))) /\
+  (forall x o, In x (clog c) -> ek x = 1%Z -> op_at c (ea x) (eop x) = Some o ->
+     (count_ev (clog c) 1%Z (ea x) (eop x) <= 1)%nat /\
+     (ogrp o = GSF -> forall l1 e1 l2 e2 l3, clog c = l1 ++ e1 :: l2 ++ e2 :: l3 ->
+                        fresh_ret_of c o e1 = true -> fresh_ret_of c o e2 = true -> False) /\
+     (ogrp o = GRM ->
+        (length (filter (fun y => match op_at c (ea y) (eop y) with
+                                  | Some o' => same_key o o' && (oerr o' =? 0)%Z
+                                  | None => false end)
+                        (filter (fun e => (ek e =? 2)%Z) (clog c))) <= 1)%nat)).
+
+Lemma prop_ok_conc_sound c : ccache c = false -> prop_ok_conc c = true -> log_ok c.
+Proof.
+  intros Hc H. unfold prop_ok_conc in H.
+  apply andb_prop in H. destruct H as [H H3]. apply andb_prop in H. destruct H as [H1 H2].
+  rewrite forallb_forall in H2, H3.
+  split; [exact H1|]. split.
+  - intros e o Hin Hk Hn Ho.
+    assert (R : ret_ok c e = true).
+    { apply H2. apply filter_In. split; [exact Hin|]. apply Z.eqb_eq. exact Hk. }
+    split; [|split]; intros Hg.
+    + exact (ret_ok_singleflight_spec c e o Hc Hn Ho Hg R).
+    + exact (ret_ok_locked_spec c e o Hn Ho Hg R).
+    + exact (ret_ok_resource_spec c e o Hn Ho Hg R).
+  - intros x o Hin Hk Ho.
+    assert (X : fresh_once c x && created_once c x && own_once c x = true).
+    { apply H3. unfold execs. apply filter_In. split; [exact Hin|]. apply Z.eqb_eq. exact Hk. }
+    apply andb_prop in X. destruct X as [X X3]. apply andb_prop in X. destruct X as [X1 X2].
+    split; [exact (own_once_spec c x X3)|]. split; intros Hg.
+    + exact (fresh_once_spec c x o Ho Hg X1).
+    + exact (created_once_spec c x o Ho Hg X2).
+Qed.
